@@ -44,7 +44,7 @@ class reentrant_handler:
 
 def current_log() -> list[list[str]]:
     c = getattr(threading.current_thread(), "sim_client", None)
-    return c.log if c is not None else _lock_free_records
+    return c.log if c is not None else _lock_free_records  # the calling THREAD's own records
 
 
 def reference_process_state() -> None:
@@ -69,6 +69,20 @@ def enable_debug_logging() -> None:
 
 
 class _Sink(logging.Handler):
+    def createLock(self) -> None:
+        # a cooperative lock (simthreads): the application's handler may use the library from
+        # inside emit(), and with a library that runs threads of its own another simulated
+        # thread can meet this lock while its holder waits for them
+        from . import simthreads
+
+        was = simthreads._installed
+        simthreads.install()
+        try:
+            self.lock = threading._RLock()  # type: ignore[attr-defined]
+        finally:
+            if not was:
+                simthreads.uninstall()
+
     def emit(self, record: logging.LogRecord) -> None:
         if getattr(_tls, "shadow", 0):
             return
@@ -81,6 +95,11 @@ class _Sink(logging.Handler):
         rec = [record.name, record.levelname, msg]
         c = getattr(threading.current_thread(), "sim_client", None)
         if c is not None:
+            if c.root is not c:
+                # a thread the library started: the record is kept per thread (per-call accounting
+                # of the dispatcher monitor) and handed to the caller on whose behalf it works
+                c.log.append(rec)
+                c = c.root
             c.log.append(rec)
             lf = getattr(c, "log_fault", None)
             if lf is not None and not lf["fired"]:
@@ -105,6 +124,17 @@ class _Sink(logging.Handler):
             if fn is not None:
                 _tls.reenter = None
                 fn()
+
+
+def sink_lock_among(locks: list[Any]) -> bool:
+    """Is the lock of the harness's own log handler one of ``locks`` (cooperative locks that the
+    threads of a deadlocked run wait for)?"""
+    for h in logging.getLogger().handlers:
+        if isinstance(h, _Sink):
+            blk = getattr(h.lock, "_block", None)
+            if any(x is blk or x is h.lock for x in locks):
+                return True
+    return False
 
 
 def install_log_sink() -> None:
